@@ -2319,3 +2319,32 @@ CONTROLS['C14'] += [
       "    last_modified = last_modified or timeutils.utcnow(with_timezone=True)\n    return last_modified\n",
       "    return last_modified\n", 'R14.12'),
 ]
+CONTROLS['C16'] += [
+    M('c16-deprecated-name-of-a-live-rule', 'placement/policies/base.py',
+      "    name=RULE_ADMIN_API,\n", "    name='admin_api',\n", 'R16.7'),
+]
+CONTROLS['C17'] += [
+    M('c17-startup-syncs-in-one-transaction', 'placement/deploy.py',
+      "    trait.ensure_sync(ctx)\n    resource_class.ensure_sync(ctx)\n",
+      "    with db_api.placement_context_manager.writer.using(ctx):\n"
+      "        trait.ensure_sync(ctx)\n"
+      "        resource_class.ensure_sync(ctx)\n", 'R17.9'),
+]
+CONTROLS['C11'] += [
+    M('c11-omitted-parent-filled-in', H + 'resource_provider.py',
+      "    for field in rp_obj.ResourceProvider.SETTABLE_FIELDS:\n        if field in data:\n",
+      "    data.setdefault('parent_provider_uuid', None)\n"
+      "    for field in rp_obj.ResourceProvider.SETTABLE_FIELDS:\n        if field in data:\n",
+      'R11.13'),
+]
+CONTROLS['C13'] += [
+    M('c13-member-of-uuids-respelt', 'placement/util.py',
+      "        required = set(value[3:].split(','))\n",
+      "        required = set(a.lower() for a in value[3:].split(','))\n",
+      'R13.9'),
+]
+CONTROLS['C15'] += [
+    M('c15-lookup-of-a-key-not-tested', 'placement/util.py',
+      "    values = req.GET.getall('required' + suffix)\n",
+      "    values = [req.GET['required' + suffix]]\n", 'R15.15'),
+]
